@@ -207,7 +207,9 @@ def span_scan(slice_, timeout):
                     x, y = sp[i], sp[j]
                     if x[0] <= y[1] and y[0] <= x[1]:
                         pair, riap = ((x[0], x[1]), (y[0], y[1])), ((y[0], y[1]), (x[0], x[1]))
-                        if pair in C.F3A or riap in C.F3A or pair in C.F36 or riap in C.F36:
+                        if pair in C.F36 or riap in C.F36:
+                            continue
+                        if any((p1[0] >= x[0] and p1[1] <= x[1] and p2[0] >= y[0] and p2[1] <= y[1]) or (p1[0] >= y[0] and p1[1] <= y[1] and p2[0] >= x[0] and p2[1] <= x[1]) for (p1, p2) in C.F3A):
                             continue
                         return {'state': 'counterexample', 'cex': {'culture': culture, 'kind': kind, 'q': q}, 'detail': 'overlap: %r -> %r and %r' % (q, x, y), 'queries': n}
     return {'state': 'discharged', 'detail': '%d corpus queries (%s): span contract and disjointness hold' % (n, culture), 'queries': n, 'sample': {'queries': n}}
